@@ -63,7 +63,7 @@ def gen_ring(rng, n):
 def common_params(rng, strat, ind):
     individuals = rng.choice([4, 4, 5, 6, 8, 12, 20, 33, 60])
     # tournament_size = 1 ("selecting individuals at random"): recombination picks the mate itself
-    # (fix 3f50779; before, recombination::base / de read parent[1] of a one-element vector)
+    # (fix 295a059; before, recombination::base / de read parent[1] of a one-element vector)
     tour = rng.choice([1, 2, 2, 3, 4, individuals, min(individuals, 7)])
     tour = min(tour, individuals)
     mz = rng.choice([tour, tour + 1, max(tour, individuals // 2), individuals, individuals + 5, 20, 4294967295])
@@ -144,7 +144,7 @@ def gen_search(rng, n):
              "cache": rng.choice([0, 8]), "fitk": rng.choice([1, 5, 50]),
              "open_tournament": rng.choice([0, 1]), "open_mate_zone": rng.choice([0, 1]),
              "open_elitism": rng.choice([0, 1]), "open_rates": rng.choice([0, 1]), "open_brood": rng.choice([0, 1])}
-        # (an open tournament_size is filled with min(5, individuals, mate_zone): fix 670c717)
+        # (an open tournament_size is filled with min(5, individuals, mate_zone): fix 85c06c5)
         out.append(fmt("search", p))
     return out
 
